@@ -132,8 +132,8 @@ func init() {
 	fw.Register(&fw.Check{
 		ID:    "C04",
 		Title: "Mutating commands have exactly their intended effect over any command history",
-		Rule: "explicit-state search over command histories: state = the bytes of the target file; 15 initial files (empty, blank-only, empty record, open ranges with tags / multi-line summaries, sorted with gaps, yesterday's open range, duplicate date, CRLF+tab+slash+12h style, no final newline, unsorted, existing pause entries) " +
-			"x ALL sequences of <=3 (quick) / 4 (thorough) commands over a 72-command alphabet (track x entry kinds x 4 dates incl. invalid text and re-indenting continuation; start x times incl. shifted and 12h x summary/--resume/--resume-nth 1,-1,7/conflicts; stop x times incl. before start and next day x one- and two-line summaries; switch likewise; create x dates x should x two-line summary; pause plain/-s/--no-tags/--extend with tick sequences incl. clock jumps), " +
+		Rule: "explicit-state search over command histories: state = the bytes of the target file; " + fmt.Sprint(len(c04Init)) + " initial files (empty, blank-only, empty record, open ranges with tags / multi-line summaries, sorted with gaps, yesterday's open range, duplicate date, CRLF+tab+slash+12h style, no final newline, unsorted, existing pause entries) " +
+			"x ALL sequences of <=3 (quick) / 4 (thorough) commands over a " + fmt.Sprint(len(c04Ops())) + "-command alphabet (track x entry kinds x 4 dates incl. invalid text and re-indenting continuation; start x times incl. shifted and 12h x summary/--resume/--resume-nth 1,-1,7/conflicts; stop x times incl. before start and next day x one- and two-line summaries; switch likewise; create x dates x should x two-line summary; pause plain/-s/--no-tags/--extend with tick sequences incl. clock jumps), " +
 			"plus for every initial file with an open range ALL tick sequences of <=3 (quick) / 4 (thorough) deltas from {0,30,60,61,125,3600,-60 s} x 4 pause variants. The first command of every history and every 16th deeper one go through the complete CLI, the rest run the command structs directly. " +
 			"states are deduplicated by hash(bytes, remaining depth); distinct_nontrivial counts distinct file states reached.",
 		Assumptions: []string{
